@@ -230,6 +230,21 @@ type streamElem struct {
 	words [][]byte
 }
 
+// decodeSafe is redis.Decode outside a simulated process: a corrupted length can make the decoder ask the simulated
+// allocator for gigabytes, which it refuses by panicking; here (no simulated process to kill) that is a rejection.
+func decodeSafe(br *bufio.Reader) (r redis.Resp, err error) {
+	defer func() {
+		if x := recover(); x != nil {
+			if _, ok := x.(simrt.AllocFailure); ok {
+				r, err = nil, fmt.Errorf("allocation refused: %v", x)
+				return
+			}
+			panic(x)
+		}
+	}()
+	return redis.Decode(br)
+}
+
 func runC10(c *core.Ctx) *core.Violation {
 	t := c.T
 	maxDepth := 3
@@ -574,7 +589,7 @@ func c10Malformed(c *core.Ctx, elems []streamElem, stream []byte, mode, bufSize 
 	rest := data
 	for k := 0; k < len(elems)+2; k++ {
 		want, n, st := refParse(rest, 0)
-		got, err := redis.Decode(br)
+		got, err := decodeSafe(br)
 		switch st {
 		case "ok":
 			if err != nil {
@@ -592,7 +607,7 @@ func c10Malformed(c *core.Ctx, elems []streamElem, stream []byte, mode, bufSize 
 			return nil
 		}
 		if len(rest) == 0 {
-			if _, err := redis.Decode(br); err == nil {
+			if _, err := decodeSafe(br); err == nil {
 				return core.Violate("malformed-accepted", "value-after-eof", "%s: a value was returned after the end of the stream", what)
 			}
 			return nil
